@@ -1112,6 +1112,11 @@ func (val Value) Length() Value {
 		// For tuples, we can return the length even if the value is not known.
 		return NumberIntVal(int64(val.Type().Length()))
 	}
+	if val.Type().IsObjectType() {
+		// Likewise for objects, whose length is the number of attributes
+		// (see LengthInt).
+		return NumberIntVal(int64(len(val.Type().AttributeTypes())))
+	}
 
 	if !val.IsKnown() {
 		// If the whole collection isn't known then the length isn't known
